@@ -109,6 +109,10 @@ def plan(prop, tier):
                                       invariants=["Inv_C03", "Inv_C01"])))
         for n, kw in pair_cfgs(["P", "A", "W", "N"], ids, (True, False)):
             sim.append((n, kw, dict(num=60 if q else 1500, depth=60, maxfail=1, maxdata=1, envclose=False)))
+        # every edge of the pair graphs with at most one (thorough: two) non-cooperative steps: each interleaving of deliveries
+        # with the user's approval / cancellation and a timer expiry is a schedule for the two real connections
+        for n, kw in pair_cfgs(["P", "A", "W", "N"], ids, (True, False)):
+            gen.append((n, kw, dict(budget=1 if q else 2, maxfail=0, maxdata=0, envclose=False)))
     else:
         raise vlib.Infra("no SME plan for " + prop)
     return model, gen, sim
